@@ -101,7 +101,10 @@ CHECKS["C18"] = {
             "bulk deletion. Oracles after every selection: no duplicates, nothing absent/deleted/expired, no box with its sub or two boxes sharing a sub, every pending unexpired tx present when the selection is not cut; "
             "AddTx verdict must be justified by the model. non-trivial = history with a box/sub overlap, an expiry or a capacity doubling; distinct by op list digest. "
             "concurrent: 2..4 goroutines x 1..3 ops (AddTx / DelTxs / GetTxs) released from a barrier after a generated sequential prefix (optionally past the first capacity doubling), built with -race; "
-            "the recorded history (start/end stamps, results) must be linearizable w.r.t. the deterministic part of the specification (brute-force search with memoisation); non-trivial = >= 4 concurrent ops touching a box or its subs.",
+            "the recorded history (start/end stamps, results) must be linearizable w.r.t. the deterministic part of the specification (brute-force search with memoisation); non-trivial = >= 4 concurrent ops touching a box or its subs. "
+            "forkswitch: a real node (2..4 deputies) whose pool holds a universe of 3..8 transfers receives two or three forks (3..8 blocks in all, grown from the genesis or a common first block, any deputy and slot) whose blocks carry overlapping "
+            "selections of that universe; whenever the engine's head moves to a block that is no descendant of the old head, the pool must hold exactly once every transaction of the abandoned fork that is not on the new fork and none that is on the "
+            "new current fork; no selection hands a transaction out twice. non-trivial = at least one fork switch.",
     "level_text": "Model-based generated operation sequences against a reference pending-set model (sequential), linearizability of small concurrent histories under the race detector, and fork switches on a real node; "
                   "exploration bounded by sequence length and universe size.",
     "level_note": "Trusted: the pending-set model. The documented quirk (a deleted sub transaction removes its box and leaves unusable index entries) is modelled as optional behaviour, so it is neither required nor reported.",
@@ -109,6 +112,7 @@ CHECKS["C18"] = {
     "assumptions": ["a box is valid only if it expires no later than its sub transactions (checkBoxTx)", "transactions are identified by hash"],
     "units": [
         {"name": "sequential", "test": "TestC18Sequential", "quick": {"checks": 1500, "shards": 4, "timeout": 900}, "thorough": {"checks": 15000, "shards": 16, "timeout": 3000}},
+        {"name": "forkswitch", "test": "TestC18ForkSwitch", "quick": {"checks": 300, "shards": 4, "timeout": 900}, "thorough": {"checks": 5000, "shards": 12, "timeout": 3000}},
         {"name": "concurrent", "test": "TestC18Concurrent", "race": True, "quick": {"checks": 600, "shards": 2, "timeout": 900}, "thorough": {"checks": 8000, "shards": 8, "timeout": 3000}},
     ],
 }
@@ -121,12 +125,13 @@ CHECKS["C20"] = {
             "sync: a valid segment of 3..7 blocks (2..5 deputies, generated transactions, a generated subset of deputies confirming each block) is delivered to the REAL ProtocolManager of a real node by 1..2 scripted p2p.IPeer "
             "connections as BlocksMsg (single or batches of 2..3, possibly reversed) and ConfirmMsg messages in a generated permutation with 0..4 duplicates; the harness owns the schedule at message granularity "
             "(the next message is sent once no delivered block is in transit from the cache into the chain). Oracle: after delivery the node's current and stable block hashes equal those of a node that got block 1, its confirms, block 2, ... in order; "
-            "a difference is a verdict only once current/stable/cache sizes have not changed for 4 s (8 timer periods); still changing after 30 s = inconclusive. non-trivial = a block delivered after a block at least two heights above it, or a confirm delivered before its block. "
+            "In a quarter of the cases some blocks are never pushed (fetch mode): the node must ask for the parents of the blocks it parks and the peers answer its block requests from the segment. "
+            "A difference is a verdict only once current/stable/cache sizes have not changed for 4 s (8 timer periods); still changing after 30 s = inconclusive. non-trivial = a block delivered after a block at least two heights above it, or a confirm delivered before its block. "
             "txbatch: 1..4 TxsMsg batches of 1..8 transactions drawn with repetition from 1..10 valid transactions (transfers, creations, boxes; wall-clock expiries) and 0..4 decoys (expired, too far ahead, other chain id), via 1..2 peers; "
             "afterwards the pool holds every valid delivered transaction exactly once and nothing else (verdict after 3 s without change). non-trivial = a batch of >= 2.",
     "level_text": "Model-based state machines for the two caches, and generated delivery schedules driven through the real protocol manager and chain with a reference node as oracle; exploration bounded by segment length, duplicates and batch sizes.",
     "level_note": "The harness owns the schedule at message granularity only: it waits until cached blocks that became insertable have been inserted before it sends the next message, so the product's own race between the cache timer's asynchronous insert "
-                  "and a confirm arriving in that window is not explored. Scripted peers are passive (they do not answer block requests), so convergence is due to the delivered messages alone. Forks and invalid blocks are out of the statement.",
+                  "and a confirm arriving in that window is not explored. Outside fetch mode the scripted peers are passive (they do not answer block requests), so convergence is due to the delivered messages alone. Forks and invalid blocks are out of the statement.",
     "technique": "rapid stateful model-based testing + generated message schedules against a reference node (differential)",
     "assumptions": ["the receiving node is not a deputy (it emits no confirms of its own)", "transaction batches use wall-clock expiries at least 120 s away from both window ends"],
     "units": [
@@ -163,6 +168,7 @@ CHECKS["C15"] = {
     "units": [
         {"name": "frames", "test": "TestC15Frames", "quick": {"checks": 250, "shards": 4, "timeout": 900}, "thorough": {"checks": 6000, "shards": 8, "timeout": 3400}},
         {"name": "messages", "test": "TestC15Messages", "quick": {"checks": 150, "shards": 8, "timeout": 900}, "thorough": {"checks": 4000, "shards": 16, "timeout": 3400}},
+        {"name": "fuzz", "fuzz": "FuzzFrameReader", "test": "FuzzFrameReader", "thorough": {"fuzztime": "180s", "workers": 16, "timeout": 600}},
     ],
 }
 
@@ -275,7 +281,9 @@ CHECKS["C01"] = {
             "modify-signers, gas-payer transactions, boxes of 1..4 sub transactions, and decoys the miner must discard: foreign signature, overspend, no gas money, gas below intrinsic, unsigned, vote for a non-candidate, box with a failing sub); "
             "miner = the deputy in turn or a later slot. Per block: the assembly is run 3x on the same parent (identical hash), once more with only the packaged transactions (metamorphic: discarded candidates leave no trace), "
             "then stored; a validator inserts the RLP bytes (must accept) and is restarted at a drawn point; full state dump (all addresses and keys named in any change log, roots, version records, raw code hash) equal on both. "
-            "At the end a fresh node inserts the whole chain and must accept every block and end in the same state. non-trivial = a block with >= 1 packaged and >= 1 discarded candidate; distinct by history digest.",
+            "At the end a fresh node inserts the whole chain and must accept every block and end in the same state. non-trivial = a block with >= 1 packaged and >= 1 discarded candidate; distinct by history digest. "
+            "stable-lag: the same honest chains (2..3 deputies, asset-heavy mix) where the validator receives the confirm packets of a block 1, 2 or many blocks later than the miner: its verdict on every honest block, and the resulting state, "
+            "must not depend on its stable height. non-trivial = at least one block was validated while the validator's stable block was behind the miner's. The listed finding C01-asset-tx-needs-stable-asset is matched exactly (see known_findings.json).",
     "level_text": "Differential execution of generated blocks on independently built nodes (miner path vs validator path vs late joiner vs restarted node) plus a metamorphic relation on the candidate list; "
                   "hundreds to thousands of multi-block histories per run. Exploration bounded by history length and the grammar.",
     "level_note": "Trusted: the harness-built header (PrepareHeader minus the wall clock) and the exported BlockAssembler.MineBlock as the honest miner; times anchored at a fixed past epoch so the validator's only clock test is constant-true; "
@@ -284,6 +292,7 @@ CHECKS["C01"] = {
     "assumptions": ["an honest miner is PrepareHeader + BlockAssembler.MineBlock + saveNewBlock", "map iteration order is sampled by repeating the assembly, not controlled"],
     "units": [
         {"name": "determinism", "test": "TestC01Determinism", "quick": {"checks": 220, "shards": 4, "timeout": 900}, "thorough": {"checks": 3000, "shards": 16, "timeout": 3400}},
+        {"name": "stable-lag", "test": "TestC01StableLag", "quick": {"checks": 200, "shards": 4, "timeout": 900}, "thorough": {"checks": 3000, "shards": 12, "timeout": 3400}},
     ],
 }
 
@@ -384,13 +393,17 @@ CHECKS["C03"] = {
             "deliver(any block, again, before its parent, carrying 0..3 generated confirms in its body), confirm(any block, 1..4 signatures each drawn from: valid by deputy i, the same bytes again, re-encoded (s -> n-s), by an outsider key, "
             "by the block's miner (also re-encoded), random bytes, a deputy's signature for another block; packet with wrong height or unknown hash). Invariants after every step: stable height never decreases; the new stable block is a descendant of the previous one "
             "(harness parent links); the promoted block carries >= ceil(2n/3) distinct deputy signers (header + stored confirms, recovered by the harness and matched to its own key table); blocks by height up to stable are the stable block's ancestor chain and never change; "
-            "the head is the stable block or a descendant. non-trivial = >= 1 promotion and (a fork or an adversarial signature / packet); distinct by history digest.",
+            "the head is the stable block or a descendant. non-trivial = >= 1 promotion and (a fork or an adversarial signature / packet); distinct by history digest. "
+            "terms: chains of 9..14 blocks with 8-block terms (1..4 genesis deputies, configured deputy count 2..5, candidate registrations and votes, so that the second term usually has another number of deputies); "
+            "after every block a confirm packet signed by a generated selection of ALL node keys of the world (deputies of either term, never-elected users, an outsider). A block may only store confirms of deputies of its own term, one per deputy; "
+            "a newly stable block carries at least ceil(2n/3) signers of its term; a block whose parent is stable and which carries that many becomes stable. non-trivial = two different term sizes and at least two promotions.",
     "level_text": "Stateful generated histories with history invariants checked after every step; the signer count is recomputed independently from the stored signatures. Exploration bounded by ~30 steps per history.",
     "level_note": "Trusted: the harness's parent links and key table; Ecrecover as a primitive; production term lengths (no term change inside these histories).",
     "technique": "rapid stateful testing with history invariants",
     "assumptions": ["ancestors made stable together with a promoted block are exempt from the signer count, as the statement says"],
     "units": [
         {"name": "finality", "test": "TestC03Finality", "quick": {"checks": 250, "shards": 4, "timeout": 900}, "thorough": {"checks": 4000, "shards": 12, "timeout": 3400}},
+        {"name": "terms", "test": "TestC03Terms", "quick": {"checks": 100, "shards": 4, "timeout": 900}, "thorough": {"checks": 2000, "shards": 12, "timeout": 3400}},
     ],
 }
 
